@@ -620,6 +620,35 @@ class Segments(Family):
                 if any(not (0 <= x <= 1) for row in pm for x in row) or pm[0] != [rq(exp_s[0]), rq(exp_s[1])]:
                     res.failure("parallel-lines:parameters", "parallel_lines_parameters%s = %s, common part in s is %s" %
                                 (js(case), js(pm), js(exp_s)), rc)
+            # The COMPILED parallel_lines_parameters is not exported: the shim above binds the Python routine in both
+            # configurations.  Its only observable entry point is the intersection of two exactly straight curves
+            # (check_lines), so in the compiled configuration the same exact answer is demanded there.  A one-point
+            # common part (touching collinear segments) is the listed finding F-D of C20 and is left to that check.
+            if ctx.cfg == "speedup" and a != b and c != d:
+                dd = (b[0] - a[0]) ** 2 + (b[1] - a[1]) ** 2
+                s0 = ((c[0] - a[0]) * (b[0] - a[0]) + (c[1] - a[1]) * (b[1] - a[1])) / dd
+                s1 = ((d[0] - a[0]) * (b[0] - a[0]) + (d[1] - a[1]) * (b[1] - a[1])) / dd
+                lo, hi = max(Fr(0), min(s0, s1)), min(Fr(1), max(s0, s1))
+                if not want or lo < hi:
+                    try:
+                        got, coincident = ctx.GI.all_intersections(arr([[a[0], b[0]], [a[1], b[1]]]), arr([[c[0], d[0]], [c[1], d[1]]]))
+                        got = [[Fr(float(x)) for x in row] for row in np.asarray(got).tolist()]
+                        outcome = None
+                    except Exception as exc:  # noqa
+                        got, coincident, outcome = None, None, type(exc).__name__
+                    if outcome is not None:
+                        res.failure("parallel-lines:compiled-entry-raised", "all_intersections of the collinear / parallel segments %s raised %s" %
+                                    (js(case), outcome), rc)
+                    elif not want:
+                        if got[0] or coincident:
+                            res.failure("parallel-lines:compiled-entry", "all_intersections of the disjoint parallel segments %s = %s, coincident=%s" %
+                                        (js(case), js(got), coincident), rc)
+                    else:
+                        exp_s = [lo, hi] if s0 <= s1 else [hi, lo]
+                        if not coincident or len(got[0]) != 2 or got[0] != [rq(exp_s[0]), rq(exp_s[1])] or \
+                                any(not (0 <= x <= 1) for row in got for x in row):
+                            res.failure("parallel-lines:compiled-entry", "all_intersections of the overlapping collinear segments %s = %s, coincident=%s; "
+                                        "common part in s is %s" % (js(case), js(got), coincident, js(exp_s)), rc)
 
 
 # ---------------------------------------------------------------------- boxes, containment, intervals
